@@ -1429,6 +1429,9 @@ class Engine:
         if z3.is_bv(r):
             return r.as_long()
         if z3.is_fp(r):
+            # fp.to_ieee_bv of NaN is unspecified in SMT-LIB (z3 may answer 0): give NaN its canonical bits
+            if z3.is_true(m.eval(z3.fpIsNaN(r), model_completion=True)):
+                return {'f64': 0x7ff8000000000000}
             b = m.eval(z3.fpToIEEEBV(r), model_completion=True)
             return {'f64': b.as_long()}
         return str(r)
